@@ -1,7 +1,7 @@
 (* C18: the area's fractional array coordinates as REGENERATED from geometry.py on every run
    (Gen/GenC18.v) are the hand model of Model/Grid.v that the index theorems are about. *)
 From Coq Require Import Reals ZArith Lra Lia Bool.
-From PR Require Import Base.Num Base.RNum Model.Grid Model.CellIndex Gen.GenC18 Proofs.Grid_real.
+From PR Require Import Base.Num Base.RNum Base.F64 Model.Grid Model.CellIndex Gen.GenC18 Proofs.Grid_real.
 Open Scope R_scope.
 
 Lemma gen_array_coordinates_R a x y : wf_area a ->
@@ -22,3 +22,62 @@ Lemma area_cell_of_source a x y : wf_area a ->
    if mi_mask RO (width a) cf || mi_mask RO (height a) rf then None
    else Some (mi_index RO (height a) rf, mi_index RO (width a) cf)).
 Proof. intros H. rewrite gen_array_coordinates_R by exact H. reflexivity. Qed.
+
+(* ---------------------------------------------------------------- the element-wise index recipes, regenerated from
+   grid.py, geo_filter.py, bucket/__init__.py, geometry.py (masked_ints), utils/__init__.py and ewa/ewa.py, are the
+   hand models of Model/CellIndex.v -- for EVERY arithmetic (so also for the binary64 instance the correspondence runs) *)
+Open Scope Z_scope.
+Lemma geb_leb0 x : (x >=? 0) = (0 <=? x). Proof. apply Z.geb_leb. Qed.
+
+Section Generic.
+  Context {T : Type} (OP : ops T).
+
+  (* grid.get_linesample *)
+  Lemma gen_get_linesample_char a x y : gen_get_linesample OP a x y = (grid_row OP a y, grid_col OP a x).
+  Proof. reflexivity. Qed.
+
+  (* grid.get_image_from_linesample: row_mask * col_mask is the validity test of cell_of *)
+  Lemma gen_linesample_masks_char (a : area T) r c :
+    gen_linesample_masks r c a = (in_range (height a) r, in_range (width a) c).
+  Proof. unfold gen_linesample_masks, in_range. cbv zeta beta. rewrite !geb_leb0. reflexivity. Qed.
+
+  (* GridFilter.get_valid_index: indices (zeroed where invalid) and validity flags *)
+  Lemma gen_gridfilter_index_char a x y :
+    gen_gridfilter_index OP a x y =
+    (let r := gf_row_with OP (floorZ OP) a y in let c := gf_col_with OP (floorZ OP) a x in
+     ((if in_range (height a) r then r else 0), (if in_range (width a) c then c else 0), in_range (height a) r, in_range (width a) c)).
+  Proof.
+    unfold gen_gridfilter_index, gf_row_with, gf_col_with, in_range. cbv zeta beta. rewrite !geb_leb0.
+    set (r := to_int OP 32 _ (sub _ _ _)). set (c := to_int OP 32 _ (add _ _ _)).
+    destruct ((0 <=? r) && (r <? height a)); destruct ((0 <=? c) && (c <? width a)); reflexivity.
+  Qed.
+
+  (* BucketResampler._get_indices *)
+  Lemma gen_bucket_indices_char a x y : gen_bucket_indices OP a x y = bk_xy OP a x y.
+  Proof.
+    unfold gen_bucket_indices, bk_xy, bk_cell, cell_of, bk_row, bk_col, in_range. cbv zeta beta iota. rewrite !geb_leb0.
+    set (r := to_int OP 64 _ (div _ (sub _ (ymax a) y) _)). set (c := to_int OP 64 _ (div _ (sub _ x (xmin a)) _)).
+    destruct (0 <=? c); destruct (c <? width a); destruct (0 <=? r); destruct (r <? height a); reflexivity.
+  Qed.
+
+  (* geometry.masked_ints *)
+  Lemma gen_masked_ints_char a cf rf :
+    gen_masked_ints OP a cf rf = (mi_mask OP (width a) cf, mi_index OP (width a) cf, mi_mask OP (height a) rf, mi_index OP (height a) rf).
+  Proof. reflexivity. Qed.
+End Generic.
+
+(* utils._downcast_index_array *)
+Lemma gen_downcast_char idx size : gen_downcast_index_array idx size = downcast size idx.
+Proof.
+  unfold gen_downcast_index_array, downcast, downcast_with, uint16_max. cbv zeta beta. rewrite Z.geb_leb. reflexivity.
+Qed.
+
+(* ewa.ll2cr: the parameters handed to ll2cr_static *)
+Lemma two_R : lit RO 2 0 = ofZ RO 2. Proof. cbn. lra. Qed.
+Lemma two_F : lit F64 2 0 = ofZ F64 2. Proof. vm_compute. reflexivity. Qed.
+Lemma gen_ll2cr_params_R (a : area R) :
+  gen_ll2cr_params RO a = (ll_cw RO a, ll_ch RO a, width a, height a, ll_ox RO a, ll_oy RO a).
+Proof. unfold gen_ll2cr_params, ll_ox, ll_oy, ll_cw, ll_ch. cbv zeta beta iota. rewrite two_R. reflexivity. Qed.
+Lemma gen_ll2cr_params_F (a : area PrimFloat.float) :
+  gen_ll2cr_params F64 a = (ll_cw F64 a, ll_ch F64 a, width a, height a, ll_ox F64 a, ll_oy F64 a).
+Proof. unfold gen_ll2cr_params, ll_ox, ll_oy, ll_cw, ll_ch. cbv zeta beta iota. rewrite two_F. reflexivity. Qed.
